@@ -5,6 +5,7 @@
   full-stack model; see DESIGN.md C11.
 -/
 import YkProofs.Queue
+import YkProofs.QueueBudget
 namespace Yk.C11
 open Yk Yk.QTree
 
@@ -29,7 +30,29 @@ theorem running_not_allocating (t : QTree) (i : Nat) (app : String) (hw : TreeWF
     ∀ j ∈ chain t i, ∀ q', (incRunningApps t i app)[j]? = some q' → app ∉ q'.allocating :=
   incRun_clears_allocating t i app hw
 
+/- `Budget t := ∀ q ∈ t, q.maxApps ≠ 0 → q.running + q.allocating.length ≤ q.maxApps`; `gatedRun t ops`: every
+   setAllocatingAccepted / incRunningApps of the history was issued in a state whose gate said yes for that
+   application on that queue (what the scheduler does: application.go tryAllocate asks canRunApp for an Accepted
+   application before anything is tried) — YkProofs/QueueBudget.lean -/
+
+/-- The gate admits no untracked application beyond the limit, for every history: as long as every admission went
+    through the gate, running + allocating never exceeds the maximum of any queue that configures one
+    (so the clamp of incRunningApps never fires on such a history). -/
+theorem budget (t : QTree) (ops : List CounterOp) (hw : TreeWF t) (h : Budget t) (hg : gatedRun t ops = true) :
+    Budget (ops.foldl cstep t) :=
+  budget_run t ops hw h hg
+
+/-- The gate is necessary: one admission that did not ask (the forced recovery path) takes a queue with a maximum
+    of one application to running + allocating = 2. -/
+theorem budget_needs_gate :
+    ∃ t : QTree, TreeWF t ∧ Budget t ∧ ¬ Budget (cstep (cstep t (.setAllocating 0 "b")) (.incRun 0 "a")) :=
+  ungated_breaks_budget
+
 example : canRunApp exTree 1 "a" = true := by decide
+example : gatedRun (updAt exTree 1 (fun q => { q with maxApps := 2 }))
+    [.setAllocating 1 "a", .setAllocating 1 "b", .incRun 1 "a", .decRun 1, .incRun 1 "b"] = true := by decide
+example : gatedRun (updAt exTree 1 (fun q => { q with maxApps := 2 }))
+    [.setAllocating 1 "a", .setAllocating 1 "b", .setAllocating 1 "c"] = false := by decide
 example : canRunApp (updAt exTree 1 (fun q => { q with maxApps := 1, running := 1 })) 1 "a" = false := by decide
 
 end Yk.C11
